@@ -287,9 +287,13 @@ def generate(seed, tier):
             primes.append([])
         elif x < 0.8:
             primes.append([equal_variant(rp, recipe)])
-        elif x < 0.9:
+        elif x < 0.86:
             # a stream-less dump that fails half-way (the second document cannot be represented) after text was produced
             primes.append([['fail', equal_variant(rp, recipe) if rp.random() < 0.5 else recipe]])
+        elif x < 0.93:
+            # the very object that is dumped afterwards was first dumped while it held something unrepresentable (the dump
+            # failed), then repaired in place
+            primes.append([['failsame']])
         else:
             primes.append([Gen(rp, sets=sort_keys, depth=2, width=3).value(0), equal_variant(rp, recipe)])
     case = {'recipe': recipe, 'perms': perms, 'hashseeds': hs, 'opts': opts, 'dumper': dumper, 'junk': r.randrange(0, 2000),
